@@ -284,3 +284,36 @@ mod tests {
         assert_eq!(v["iv"], json!([3]));
     }
 }
+
+// ---------------------------------------------------------------------------------------------
+// File-side values for the Producer (spec/SyntaxProducer.tla): reals as decimal tokens.
+
+pub fn real_token(x: f32) -> Value {
+    // Rust's Display prints the shortest decimal that round-trips, without exponent
+    let s = format!("{}", x.abs());
+    let (ip, fp) = match s.split_once('.') {
+        Some((a, b)) => (a.to_string(), b.to_string()),
+        None => (s.clone(), String::new()),
+    };
+    let mut fpd = digits_of_str(&fp);
+    while fpd.last() == Some(&0) {
+        fpd.pop();
+    }
+    json!({"k": "real", "neg": x.is_sign_negative() , "v": strip_leading(digits_of_str(&ip)), "w": fpd})
+}
+
+pub fn dict_to_file_tla(d: &Dictionary) -> Value {
+    let mut pairs: Vec<(&Vec<u8>, &Object)> = d.iter().collect();
+    pairs.sort_by(|a, b| a.0.cmp(b.0));
+    Value::Array(pairs.into_iter().map(|(k, v)| Value::Array(vec![bytes_to_json(k), obj_to_file_tla(v)])).collect())
+}
+
+pub fn obj_to_file_tla(o: &Object) -> Value {
+    match o {
+        Object::Real(r) => real_token(*r),
+        Object::Array(a) => json!({"k":"arr","v":Value::Array(a.iter().map(obj_to_file_tla).collect())}),
+        Object::Dictionary(d) => json!({"k":"dict","v":dict_to_file_tla(d)}),
+        Object::Stream(s) => json!({"k":"stream","v":dict_to_file_tla(&s.dict),"w":bytes_to_json(&s.content)}),
+        other => obj_to_tla(other),
+    }
+}
